@@ -140,6 +140,12 @@ def impl(case):
     sim.rng = fake
     effects = [Effect(id=i, beta=b) for i, b in case["effects"]]
     ys = []
+    # a third of the simulators have been asked before, for the same effects under the other setting of `normalize`: what a
+    # trait is made of depends on its own request, not on the requests before it (the earlier trait is the first column of
+    # the archive and is left out of the observation)
+    pre = 1 if case["tape_seed"] % 3 == 0 else 0
+    if pre:
+        sim.run(effects, heritability=case["h2"], prevalence=case["K"], normalize=not case["normalize"], environment=case["env"])
     for r in range(case["R"]):
         y = sim.run(effects, heritability=case["h2"], prevalence=case["K"], normalize=case["normalize"], environment=case["env"])
         ys.append([float(x) for x in y])
@@ -155,8 +161,9 @@ def impl(case):
     back = Phenotypes(_dir / "o.pheno", log=SD.silent_log())
     back.read()
     _, _, gcomp = genetic(case)
-    scales = [scale_of(c, y, gcomp, case["K"] is None) for c, y in zip(fake.calls, ys)]
-    return {"y": ys, "calls": fake.calls, "scales": scales, "names": list(sim.phens.names), "phens": np.asarray(sim.phens.data).tolist(), "file_names": list(back.names), "file_data": np.asarray(back.data).tolist(), "file_samples": list(back.samples)}
+    calls = fake.calls[pre:]
+    scales = [scale_of(c, y, gcomp, case["K"] is None) for c, y in zip(calls, ys)]
+    return {"y": ys, "calls": calls, "scales": scales, "names": list(sim.phens.names)[pre:], "phens": np.asarray(sim.phens.data)[:, pre:].tolist(), "file_names": list(back.names)[pre:], "file_data": np.asarray(back.data)[:, pre:].tolist(), "file_samples": list(back.samples)}
 
 
 def genetic(case):
@@ -252,7 +259,7 @@ def oracle(case, obs):
 
 
 def describe(case, obs):
-    tags = ["normalize" if case["normalize"] else "raw", f"h2={'given' if case['h2'] is not None else 'none'}", f"env={'given' if case['env'] is not None else 'none'}", "case-control" if case["K"] is not None else "quantitative", f"R={case['R']}"]
+    tags = ["normalize" if case["normalize"] else "raw", "simulator-asked-before-with-the-other-normalize" if case["tape_seed"] % 3 == 0 else "fresh-simulator", f"h2={'given' if case['h2'] is not None else 'none'}", f"env={'given' if case['env'] is not None else 'none'}", "case-control" if case["K"] is not None else "quantitative", f"R={case['R']}"]
     s = sum(b * b for _, b in case["effects"])
     tags.append("sumB2>1" if s > 1 else ("sumB2=1" if s == 1 else "sumB2<1"))
     tags.append("bool-matrix" if case.get("bool_matrix") else "uint8-matrix")
@@ -265,8 +272,11 @@ def gen_files(rng, tier):
     for t in range(n):
         big_R = t == 5 or (tier != "quick" and t % 300 == 17)  # more replications than numpy prints without summarising
         ns, nv = rng.randint(3, 10), rng.randint(2, 5)
+        chunky = t % 4 == 2  # a fixed share: a PGEN file of five or seven variants, most of them causal, read in chunks of 2, 3 or 4
+        if chunky:
+            nv = rng.choice([5, 7])
         data = [[[rng.randint(0, 1), rng.randint(0, 1)] for _ in range(nv)] for _ in range(ns)]
-        k = rng.randint(1, nv)
+        k = rng.randint(nv - 2, nv) if chunky else rng.randint(1, nv)
         idx = rng.sample(range(nv), k)
         # zero noise either through --heritability 1 or, with neither heritability nor environment given, through
         # sum beta^2 >= 1 (documented: the noise variance is 1 - sum beta^2 floored at 0); API or command line
@@ -285,7 +295,7 @@ def gen_files(rng, tier):
                 hap_effects.append({"id": f"H{h}", "vars": [[j, rng.randint(0, 1)] for j in vs], "beta": rng.choice([0.1, 0.5, -0.25, 1.0, 0.3])})
             if h2mode == "none_bigbeta":
                 hap_effects[0]["beta"] = rng.choice([1.0, -1.0, 1.5])
-        yield {"hap_effects": hap_effects, "h2mode": h2mode, "route": route, "data": data, "effects": effects, "extra_lines": rng.sample([j for j in range(nv) if j not in idx], rng.randint(0, nv - k)), "ids": rng.choice([None, None, "subset"]), "samples": rng.choice([None, None, "subset"]), "normalize": rng.random() < 0.6, "K": rng.choice([None, None, 0.3, 0.5]), "R": rng.choice([1001, 1200]) if big_R else rng.randint(1, 3), "pgen": rng.random() < 0.3, "seed": rng.randrange(2**31)}
+        yield {"hap_effects": hap_effects, "h2mode": h2mode, "route": route, "data": data, "effects": effects, "extra_lines": rng.sample([j for j in range(nv) if j not in idx], rng.randint(0, nv - k)), "ids": rng.choice([None, None, "subset"]), "samples": rng.choice([None, None, "subset"]), "normalize": rng.random() < 0.6, "K": rng.choice([None, None, 0.3, 0.5]), "R": rng.choice([1001, 1200]) if big_R else rng.randint(1, 3), "pgen": chunky or rng.random() < 0.3, "chunk": (2, 3, 4)[t // 4 % 3] if chunky else rng.choice([None, 1, 2]), "seed": rng.randrange(2**31)}
 
 
 def _plan(case):
@@ -388,8 +398,10 @@ def impl_files(case):
         ids = {h["id"] for h in case["hap_effects"][: max(1, len(case["hap_effects"]) - 1)]} if case["ids"] else None
     want = plan["want"]
     h2 = 1.0 if case.get("h2mode", "one") == "one" else None
+    # PGEN files are read in chunks of --chunk-size variants: none, one, and sizes that do not divide the number of variants
+    chunk = case.get("chunk") if case["pgen"] else None
     if case.get("route", "api") == "api":
-        simulate_pt(gf, eff_file, num_replications=case["R"], heritability=h2, prevalence=case["K"], normalize=case["normalize"], samples=want, haplotype_ids=ids, seed=case["seed"] % 2**32, output=d / "o.pheno", log=SD.silent_log())
+        simulate_pt(gf, eff_file, **({"chunk_size": chunk} if chunk else {}), num_replications=case["R"], heritability=h2, prevalence=case["K"], normalize=case["normalize"], samples=want, haplotype_ids=ids, seed=case["seed"] % 2**32, output=d / "o.pheno", log=SD.silent_log())
     else:
         from click.testing import CliRunner
         from haptools.__main__ import main
@@ -400,6 +412,8 @@ def impl_files(case):
         if case["K"] is not None:
             args += ["--prevalence", str(case["K"])]
         args.append("--normalize" if case["normalize"] else "--no-normalize")
+        if chunk:
+            args += ["--chunk-size", str(chunk)]
         for x in sorted(want or []):
             args += ["--sample", x]
         for x in sorted(ids or []):
@@ -481,7 +495,7 @@ CHECK = Check(
             setup=setup,
             teardown=teardown,
             nontrivial=lambda c, o: C.jdump(c),
-            describe=lambda c, o: ["pgen" if c["pgen"] else "vcf", "id-subset" if c["ids"] else "all-ids", "sample-subset" if c["samples"] else "all-samples", "cc" if c["K"] else "quant", "route=" + c.get("route", "api"), "effects=" + ("hap-file" if c.get("hap_effects") else "snplist"), "noise-zero-by=" + ("heritability-1" if c.get("h2mode", "one") == "one" else "default-noise-with-sum-beta2>=1"), "normalize" if c["normalize"] else "no-normalize"],
+            describe=lambda c, o: [("pgen-chunk-size=" + str(c.get("chunk"))) if c["pgen"] else "vcf", "id-subset" if c["ids"] else "all-ids", "sample-subset" if c["samples"] else "all-samples", "cc" if c["K"] else "quant", "route=" + c.get("route", "api"), "effects=" + ("hap-file" if c.get("hap_effects") else "snplist"), "noise-zero-by=" + ("heritability-1" if c.get("h2mode", "one") == "one" else "default-noise-with-sum-beta2>=1"), "normalize" if c["normalize"] else "no-normalize"],
             rule="simulate_pt – through the Python entry point or through `haptools simphenotype` (click CliRunner) – end to end on written VCF / PGEN files with the effects in a .snplist or – as haplotypes with a beta field – in a .hap file (the genotype file then holds the haplotypes' pseudo-genotypes, written from the definition), noise-free either by heritability 1 or by giving neither heritability nor environment with sum beta^2 >= 1 (zero noise, so the output must equal the genetic component exactly and liabilities tie), effects listed in an order different from the genotype file, --id and --sample subsets, prevalence 0.3 / 0.5, 1-3 replications; output read back with Phenotypes.read",
         ),
     ],
